@@ -42,12 +42,12 @@ def _plain_arg(s):
 
 
 def _needle(s):
-    """Search term / delimiter: empty (or the single blank the pinned tests write) means one blank."""
-    if s is None or s == "" or s == " ":
+    """Search term / delimiter. Help:Extension:ParserFunctions, "Stripping whitespace": blanks are stripped from the
+    beginning and end of ALL parameters of these functions; an empty search term means one blank."""
+    if s is None:
         return " "
-    if s != trim(s):
-        return OUT
-    return s
+    s = trim(s)
+    return s if s else " "
 
 
 # ---------------------------------------------------------------- string functions
@@ -120,10 +120,8 @@ def f_sub(s, start=None, length=None):
 
 def f_replace(s, needle=None, repl=None):
     needle = _needle(needle)
-    if needle is OUT or not _plain_arg(repl):
-        return OUT
     s = trim(s)
-    repl = repl or ""
+    repl = trim(repl or "")
     out = []
     i = 0
     m = len(needle)
@@ -156,8 +154,6 @@ def _split(s, delim):
 
 def f_explode(s, delim=None, pos=None, limit=None):
     delim = _needle(delim)
-    if delim is OUT:
-        return OUT
     s = trim(s)
     p = _int(pos)
     lim = _int(limit, None)
@@ -180,8 +176,8 @@ def f_explode(s, delim=None, pos=None, limit=None):
 
 
 def _pad(s, cnt, pad, left):
-    if not _plain_arg(pad):
-        return OUT
+    if pad is not None:
+        pad = trim(pad)                 # every parameter is stripped
     n = _int(cnt)
     if n is OUT:
         return OUT
@@ -212,21 +208,31 @@ def f_padright(s, cnt=None, pad=None):
     return _pad(s, cnt, pad, False)
 
 
+TP_NAMESPACES = ("Help:", "Talk:")
+
+
 def f_titleparts(title, num=None, first=None):
-    """Asserted only where the manual and the pinned tests coincide: no ':' in the title,
-    `first` absent, 0 or negative; compared modulo the case of the first letter (MediaWiki
-    normalises it, tests/ pin that the package does not)."""
+    """Help:Extension:ParserFunctions ##titleparts: the page name is normalised as a title (first letter upper case),
+    split at "/" only (a namespace prefix belongs to the first segment), `first` counts segments from 1 (0 = 1),
+    negative values count from the end. Asserted for [Help:|Talk:] + letters, digits and "/"."""
     t = trim(title)
-    if ":" in t or " " in t or "_" in t:
-        return OUT
     k, f = _int(num), _int(first)
-    if k is OUT or f is OUT or f > 0:
+    if k is OUT or f is OUT:
         return OUT
     if t == "":
         return ""
+    ns = ""
+    for p in TP_NAMESPACES:
+        if t.startswith(p):
+            ns, t = p, t[len(p):]
+    if t == "" or any(not (c.isalnum() or c == "/") for c in t):
+        return OUT
+    t = ns + t[:1].upper() + t[1:]
     bits = _split(t, "/")
     n = len(bits)
-    start = f
+    start = f - 1 if f > 0 else f
+    if start > n:
+        start = n
     if start < 0:
         start = n + start
         if start < 0:
@@ -262,6 +268,8 @@ def f_ucfirst(s):
     return s[:1].upper() + s[1:]
 
 
+# QUERY = PHP urlencode (everything but alphanumerics and -_. is encoded, "~" too), PATH = rawurlencode (RFC 3986:
+# "~" stays), WIKI = wfUrlencode
 _UNRESERVED = set("ABCDEFGHIJKLMNOPQRSTUVWXYZabcdefghijklmnopqrstuvwxyz0123456789-_.")
 
 
@@ -279,14 +287,18 @@ def _pct(s, keep, space):
 
 def f_urlencode(s, mode=None):
     s = trim(s)
+    if mode is not None:
+        mode = trim(mode)
+        if mode == "":
+            return OUT
     if mode is None or mode == "QUERY":
         return _pct(s, "", "+")
     if mode == "PATH":
-        return _pct(s, "", "%20")
+        return _pct(s, "~", "%20")
     if mode == "WIKI":
         if "  " in s:
             return OUT
-        return _pct(s, ":/", "_")
+        return _pct(s, ";@$!*(),/~:", "_")      # wfUrlencode: "included as literal characters for prettiness"
     return OUT
 
 
@@ -389,3 +401,65 @@ def f_formatnum_nosep(n):
     if not is_plain_numeral(n):
         return OUT
     return n
+
+
+# ---------------------------------------------------------------- #expr operators with a documented value rule
+# Help:Extension:ParserFunctions ##expr, operator table and "Rounding" (independent of the code under test).
+# They return a number, the string "Division by zero" (the expression has no value), or raise ValueError where
+# the documentation does not settle the result (the monitor skips such an expression).
+def expr_mod(x, y):
+    """'mod: remainder of division after truncating both operands to an integer'; PHP %: sign of the dividend.
+    Documented: 30 mod 7 = 2, -8 mod -3 = -2, -8 mod 3 = -2, 8 mod -3 = 2, 8 mod 2.7 = 0, 8 mod 3.2 = 2, 8.9 mod 3 = 2."""
+    if abs(x) >= 2 ** 62 or abs(y) >= 2 ** 62:
+        raise ValueError("beyond the integer range")
+    a, b = int(x), int(y)               # int() truncates toward zero
+    if b == 0:
+        return "Division by zero"
+    r = abs(a) % abs(b)
+    return -r if a < 0 else r
+
+
+def expr_fmod(x, y):
+    """'fmod: floating-point modulo', same rung as * / div mod: the remainder x - n*y with n = trunc(x/y)
+    (sign of the dividend): 5 fmod 2 = 1, 7.5 fmod 2 = 1.5, -8 fmod 3 = -2."""
+    import math
+    if y == 0:
+        return "Division by zero"
+    if isinstance(x, float) and (x != x or x in (float("inf"), float("-inf"))):
+        raise ValueError("non-finite")
+    return math.fmod(x, y)
+
+
+def expr_round(x, y):
+    """'round: rounds the number on the left to a multiple of 1/10 raised to the truncated value of the number on the
+    right'; halves go away from zero (documented: 1/2 round 0 = 1, -1/2 round 0 = -1, 1234.5678 round -2 = 1200,
+    1234.5678 round 2.3 = 1234.57). Only exact halves and values clearly off a half are decided here: PHP pre-rounds
+    the scaled value, so a value within 1e-9 (relative) of a half, but not exactly on it, is left open (ValueError).
+    An integer stays an integer, a decimal stays a decimal (the printed value is the same)."""
+    from decimal import Decimal, ROUND_HALF_UP, ROUND_FLOOR, localcontext
+    if isinstance(y, float) and (y != y or abs(y) > 30):
+        raise ValueError("digit count out of range")
+    digits = int(y)
+    if abs(digits) > 30:
+        raise ValueError("digit count out of range")
+    if isinstance(x, float) and (x != x or x in (float("inf"), float("-inf"))):
+        raise ValueError("non-finite")
+    if abs(x) >= 2 ** 53:
+        raise ValueError("beyond exact range")
+    if isinstance(x, int) and digits >= 0:
+        return x
+    with localcontext() as c:
+        c.prec = 400
+        scaled = Decimal(x).scaleb(digits)             # exact: x * 10**digits
+        fl = scaled.to_integral_value(rounding=ROUND_FLOOR)
+        frac = scaled - fl                             # in [0, 1)
+        half = Decimal("0.5")
+        if frac != half and abs(frac - half) <= Decimal("1e-9") * max(Decimal(1), abs(scaled)):
+            raise ValueError("too close to a half: not settled by the documentation")
+        q = abs(scaled).to_integral_value(rounding=ROUND_HALF_UP)      # half away from zero
+        if scaled < 0:
+            q = -q
+        res = q.scaleb(-digits)
+    if isinstance(x, int):
+        return int(res)
+    return float(res)
